@@ -27,11 +27,17 @@ def generate(tier):
     """yields (key, shape, group, partner, own cfg, [other cfgs], order, split)"""
     level_shapes = K.xshapes('small' if tier == 'quick' else 'full')
     if tier == 'quick':
-        level_shapes = [sh for sh in level_shapes if not sh.code().endswith(('|ty', '|w'))]
+        # (of the shapes with pairwise distinct field types the quick tier keeps the struct, for the Into requests that carry no marker and find their field by its type)
+        level_shapes = [sh for sh in level_shapes if not sh.code().endswith(('|ty', '|w')) or (sh.kind == 'struct' and sh.code().endswith('|ty'))]
     for shape in level_shapes:
+        unmarked_only = tier == 'quick' and shape.code().endswith('|ty')
         for g in K.GROUPS:
+            if unmarked_only and g != 'Into':
+                continue
             for partner in ([False, True] if g in K.PARTNER else [False]):
                 owns = K.group_configs(g, shape, 'small' if tier == 'quick' else 'full', partner)
+                if unmarked_only:
+                    owns = [o for o in owns if 'unmarked:' in o.key]
                 if tier != 'quick' and len(owns) > 40:
                     owns = owns[::max(1, len(owns) // 40)]
                 if not owns:
